@@ -6,9 +6,6 @@ Import ListNotations.
 Open Scope R_scope.
 
 (* ----- scalar helpers ----- *)
-Lemma ln_nonpos_arg t : t <= 0 -> ln t = 0.
-Proof. intros H. unfold ln. destruct (Rlt_dec 0 t); [exfalso; lra | reflexivity]. Qed.
-
 (* holds for all reals thanks to [/ 0 = 0] and [ln t = 0] for [t <= 0] *)
 Lemma ln_div_swap a b : ln (b / a) = - ln (a / b).
 Proof.
